@@ -296,6 +296,11 @@ func (rt *Transfer) recvGenerator(idx int, f *File) error {
 		if rt.Opts.InfoGTE(rsyncopts.INFO_SKIP, 1) {
 			rt.Logger.Printf("skipping %s", local)
 		}
+		if !rt.Opts.PreservePerms {
+			// Not preserving permissions: an up-to-date file keeps the
+			// permissions it has (like openLocalFile does for transfers).
+			f.Mode = f.Mode&^int32(os.ModePerm) | int32(st.Mode().Perm())
+		}
 		if err := rt.setPerms(f, fs.FileMode(f.Mode)); err != nil {
 			return err
 		}
